@@ -46,8 +46,8 @@ MODELLED = [
     "attribute dictionaries are compared as key->value maps (insertion order is not part of the property)",
     "new nodes are fresh ids; a rejected call is compared as rejected (class for TreeError/DuplicatedNodeError), the "
     "partially extended tree left behind by a rejected add_* call is not compared",
-    "dataframe_to_tree/polars_to_tree run their loop while the root still has the default separator '/' (root.sep is "
-    "assigned afterwards); the model does the same",
+    "dataframe_to_tree/polars_to_tree assign root.sep BEFORE their loop since repair D11 (fa6a3a4); names containing '/' are "
+    "generated whenever the separator in use is not '/'",
 ]
 ASSUMPTIONS = [
     "theorems: single-character separator occurring in no name, non-empty names, sibling names unique in the tree "
@@ -449,7 +449,9 @@ def oracle(case):
 
 # ---------------------------------------------------------------- generators
 def _names(rng, sep, scheme):
-    fam = [n for n in U.NAME_FAMILY if not any(ch in n for ch in sep)]
+    # names may contain OTHER separators' characters (C05: "independent of the separator chosen"), in particular the
+    # default separator "/" when another one is in use (D11: dataframe_to_tree / polars_to_tree under sep != "/")
+    fam = [n for n in U.NAME_FAMILY + ["a/b", "b/", "/"] if not any(ch in n for ch in sep)]
     if scheme == "family":
         return fam
     if scheme == "distinct":
@@ -644,6 +646,18 @@ def _corpus():
                        "items": [[["a", "b"], False, False, {}]]}, ("corpus", "D3")))
         out.append(mk({"fn": "addpath", "sep": "/", "dup": dup, "tsep": "/", "tree": t, "start": 2,
                        "items": [[["a", "b"], True, False, {"v": 1}]]}, ("corpus", "D3")))
+    # D11 witness: with another separator in use, a name containing "/" whose "/"-join coincides with a different path
+    # (a."b/c".d vs a.b.c.d): every from-scratch constructor, both duplicate settings, and without the name clash
+    for fn in ("list", "dict", "pd", "pl"):
+        for dup in (False, True):
+            for last in ("d", "e"):
+                for sep in (".", "|", "::"):
+                    its = [[["a", "b/c", "d"], False, False, ({"v": 1} if fn != "list" else {})],
+                           [["a", "b", "c", last], False, False, ({"v": 2} if fn != "list" else {})]]
+                    d = {"fn": fn, "sep": sep, "dup": dup, "items": its, "rep": 1, "share": False}
+                    if fn in DF_FNS:
+                        d["pathpos"] = 0
+                    out.append(mk(d, ("corpus", "D11", fn)))
     # suffix-related names deeper down
     t2 = ["a", {}, [["ab", {}, [["xa", {}, [["a b", {}, []]]]]], ["b", {}, [["ba", {}, []]]]]]
     for dup in (False, True):
